@@ -1,12 +1,655 @@
-// Package c18: correspondence harness of C18 (stub: replaced when C18 is built).
+// Package c18: correspondence harness of C18 — derived Mem is observationally the original
+// function, evaluated once per class of Equal argument tuples.
+//
+// Signatures with 0..3 parameters x 0..3 results over comparable and non-comparable types of
+// ga's catalogue; for each, call histories with repeats, Equal-but-not-identical arguments
+// (fresh addresses, sign of zero, spare capacity, map insertion order) and, for the bucket form,
+// a second run against a copy of the emitted code whose hash call is replaced by a constant.
+// The driver (mem_driver.go.txt) calls, per history element, f directly and the memoised
+// function, and logs every invocation of the instrumented f; eval18 (Coq) replays the history
+// on the model and on the specification.
 package c18
 
 import (
+	_ "embed"
 	"fmt"
+	"os"
+	"path/filepath"
+	"regexp"
+	"sort"
+	"strings"
 
+	"verifharness/internal/ga"
 	"verifharness/internal/hx"
 )
 
+//go:embed mem_driver.go.txt
+var driverSource string
+
+type sig struct {
+	Params, Results []*ga.Type
+}
+
+func (s *sig) Sexp() string {
+	var b strings.Builder
+	b.WriteString("(sig (")
+	for i, p := range s.Params {
+		if i > 0 {
+			b.WriteByte(' ')
+		}
+		b.WriteString(p.Sexp())
+	}
+	fmt.Fprintf(&b, ") %d)", len(s.Results))
+	return b.String()
+}
+
+// FuncType is the Go spelling of the function type (parameters named, as a user would).
+func (s *sig) FuncType() string {
+	var ps, rs []string
+	for i, p := range s.Params {
+		ps = append(ps, fmt.Sprintf("a%d %s", i, p.Go(0)))
+	}
+	for _, r := range s.Results {
+		rs = append(rs, r.Go(0))
+	}
+	res := strings.Join(rs, ", ")
+	if len(rs) > 1 {
+		res = "(" + res + ")"
+	}
+	if res != "" {
+		res = " " + res
+	}
+	return "func(" + strings.Join(ps, ", ") + ")" + res
+}
+
+func (s *sig) Key() string { return s.FuncType() }
+
+// Form mirrors Mem/Model.v form_of (for the input distribution only; the evaluator decides).
+func (s *sig) Form() string {
+	all := true
+	for _, p := range s.Params {
+		all = all && p.Comparable()
+	}
+	switch {
+	case len(s.Params) == 0:
+		return "zero"
+	case all && len(s.Params) == 1:
+		return "map1"
+	case all:
+		return "mapN"
+	case len(s.Params) == 1:
+		return "bucket1"
+	}
+	return "bucketN"
+}
+
+func (s *sig) types() []*ga.Type { return append(append([]*ga.Type{}, s.Params...), s.Results...) }
+
+// ---------- scratch package ----------
+
+var extAlias = map[int]string{1: "ext", 2: "ext2"} // as ga/types.go
+
+type pkg struct {
+	Dir  string
+	Sigs []*sig
+	Idx  []int
+}
+
+func importsOf(ts []*ga.Type) string {
+	ext := map[int]bool{}
+	for _, t := range ts {
+		t.UsesExt(ext)
+	}
+	var es []int
+	for e := range ext {
+		es = append(es, e)
+	}
+	sort.Ints(es)
+	if len(es) == 0 {
+		return ""
+	}
+	var b strings.Builder
+	b.WriteString("import (\n")
+	for _, e := range es {
+		fmt.Fprintf(&b, "\t%s %q\n", extAlias[e], ga.ExtPaths[e])
+	}
+	b.WriteString(")\n\n")
+	return b.String()
+}
+
+// write creates go.mod, decls.go, calls.go, the external packages, types.txt and the driver
+// files (build tag drv, invisible to goderive).
+func (p *pkg) write() error {
+	if err := hx.Module(p.Dir); err != nil {
+		return err
+	}
+	decls := map[int]*ga.Type{}
+	var all []*ga.Type
+	for _, s := range p.Sigs {
+		for _, t := range s.types() {
+			t.Decls(decls)
+			all = append(all, t)
+		}
+	}
+	files := map[string]string{}
+	var localUnder []*ga.Type
+	for _, d := range decls {
+		if d.Ext == 0 {
+			localUnder = append(localUnder, d.Elem)
+		}
+	}
+	files["decls.go"] = "package main\n\n" + importsOf(localUnder) + ga.DeclSource(decls, 0)
+	for _, d := range decls {
+		if d.Ext != 0 {
+			sub := map[int]*ga.Type{}
+			for id, x := range decls {
+				if x.Ext == d.Ext {
+					sub[id] = x
+				}
+			}
+			files[strings.TrimPrefix(ga.ExtPaths[d.Ext], "p/")+"/ext.go"] = "package ext\n\n" + ga.DeclSource(sub, d.Ext)
+		}
+	}
+	var calls, tys strings.Builder
+	calls.WriteString("package main\n\n" + importsOf(all))
+	for i, s := range p.Sigs {
+		idx := p.Idx[i]
+		ft := s.FuncType()
+		fmt.Fprintf(&calls, "var memF_%d %s\n\nfunc memD_%d() %s { return deriveMem_%d(memF_%d) }\n\n", idx, ft, idx, ft, idx, idx)
+		fmt.Fprintf(&tys, "%d %s\n", idx, s.Sexp())
+	}
+	calls.WriteString("func main() {}\n")
+	files["calls.go"] = calls.String()
+	files["types.txt"] = tys.String()
+	return hx.WriteFiles(p.Dir, files)
+}
+
+var memFuncRe = regexp.MustCompile(`(?ms)^func deriveMem_(\d+)\(.*?^}\n`)
+var hashCallRe = regexp.MustCompile(`(\w+) := deriveHash\w*\(\w+\)`)
+
+// addDriver adds, after goderive ran: coll.gen.go — a copy of every emitted bucket-form
+// deriveMem function with its hash call replaced by a constant — and the driver files.
+// Returns the indices for which the collision copy exists.
+func (p *pkg) addDriver() (map[int]bool, error) {
+	derived, err := os.ReadFile(filepath.Join(p.Dir, "derived.gen.go"))
+	if err != nil {
+		return nil, err
+	}
+	coll := map[int]bool{}
+	var cg strings.Builder
+	var all []*ga.Type
+	bySig := map[string]*sig{}
+	for i, s := range p.Sigs {
+		bySig[fmt.Sprint(p.Idx[i])] = s
+	}
+	var body strings.Builder
+	for _, m := range memFuncRe.FindAllStringSubmatch(string(derived), -1) {
+		text, id := m[0], m[1]
+		if !hashCallRe.MatchString(text) {
+			continue
+		}
+		s := bySig[id]
+		if s == nil {
+			continue
+		}
+		text = hashCallRe.ReplaceAllString(text, "$1 := uint64(7)")
+		text = strings.Replace(text, "func deriveMem_"+id+"(", "func collMem_"+id+"(", 1)
+		body.WriteString(text + "\n")
+		fmt.Fprintf(&body, "func memC_%s() %s { return collMem_%s(memF_%s) }\n\n", id, s.FuncType(), id, id)
+		var n int
+		fmt.Sscan(id, &n)
+		coll[n] = true
+		all = append(all, s.types()...)
+	}
+	cg.WriteString("package main\n\n" + importsOf(all) + body.String())
+	var regs strings.Builder
+	regs.WriteString("//go:build drv\n\npackage main\n\nfunc init() {\n")
+	for _, idx := range p.Idx {
+		fmt.Fprintf(&regs, "\treg(\"memD\", %d, memD_%d)\n\treg(\"memF\", %d, &memF_%d)\n", idx, idx, idx, idx)
+		if coll[idx] {
+			fmt.Fprintf(&regs, "\treg(\"memC\", %d, memC_%d)\n", idx, idx)
+		}
+	}
+	regs.WriteString("}\n")
+	// ga's runtime has its own main; ours in calls.go is only for goderive/vet
+	callsPath := filepath.Join(p.Dir, "calls.go")
+	cb, err := os.ReadFile(callsPath)
+	if err != nil {
+		return nil, err
+	}
+	files := map[string]string{
+		"coll.gen.go": cg.String(),
+		"reg.go":      regs.String(),
+		"rt.go":       ga.RTSource,
+		"memdrv.go":   driverSource,
+		"calls.go":    strings.Replace(string(cb), "func main() {}\n", "", 1),
+	}
+	return coll, hx.WriteFiles(p.Dir, files)
+}
+
+// ---------- signatures ----------
+
+type typeSet struct {
+	comparable, noncomparable, results []*ga.Type
+	byName                             map[string]*ga.Type
+}
+
+func candidates(cat *ga.Catalogue) *typeSet {
+	B, P, Sl, Ar, M, St := ga.B, ga.P, ga.Sl, ga.Ar, ga.M, ga.St
+	ts := &typeSet{byName: map[string]*ga.Type{}}
+	ts.comparable = []*ga.Type{B("int"), B("string"), B("float64"), B("bool"), B("complex128"), B("uint8"), B("float32"),
+		cat.S0, cat.NArr, cat.NF64, cat.NInt, cat.E3, Ar(2, B("int")), Ar(2, B("float64")), St(B("int"), B("string")), St(B("float64"), Ar(2, B("string")))}
+	ts.noncomparable = []*ga.Type{Sl(B("int")), Sl(B("string")), Sl(B("float64")), Sl(B("uint8")), M(B("string"), B("int")),
+		M(B("float64"), B("string")), P(B("int")), P(cat.S0), cat.SP, cat.Rec, cat.MA, cat.NSl, cat.NMap, cat.NPtr, cat.E1,
+		Ar(2, Sl(B("int"))), Sl(P(B("int"))), P(P(B("int"))), M(B("int"), Sl(B("string"))), Sl(cat.S0), P(Sl(B("float64"))),
+		St(Sl(B("int")), B("int")), Sl(Sl(B("int"))), M(cat.NArr, P(B("float64")))}
+	ts.results = []*ga.Type{B("int"), B("string"), B("float64"), B("bool"), Sl(B("int")), P(B("int")), cat.S0, M(B("string"), B("int")), cat.NInt, Ar(2, B("string"))}
+	for _, l := range [][]*ga.Type{ts.comparable, ts.noncomparable, ts.results} {
+		for _, t := range l {
+			ts.byName[strings.ReplaceAll(t.Go(0), " ", "")] = t
+		}
+	}
+	return ts
+}
+
+// cellSig draws a signature for one cell (form x number of results).
+func cellSig(r *hx.Rand, ts *typeSet, form string, nres int) *sig {
+	s := &sig{}
+	pick := func(l []*ga.Type) *ga.Type { return hx.Pick(r, l) }
+	switch form {
+	case "zero":
+	case "map1":
+		s.Params = []*ga.Type{pick(ts.comparable)}
+	case "mapN":
+		for i := 0; i < 2+r.Intn(2); i++ {
+			s.Params = append(s.Params, pick(ts.comparable))
+		}
+	case "bucket1":
+		s.Params = []*ga.Type{pick(ts.noncomparable)}
+	case "bucketN-mixed":
+		n := 2 + r.Intn(2)
+		at := r.Intn(n)
+		for i := 0; i < n; i++ {
+			if i == at {
+				s.Params = append(s.Params, pick(ts.noncomparable))
+			} else {
+				s.Params = append(s.Params, pick(ts.comparable))
+			}
+		}
+	case "bucketN":
+		for i := 0; i < 2+r.Intn(2); i++ {
+			s.Params = append(s.Params, pick(ts.noncomparable))
+		}
+	}
+	for i := 0; i < nres; i++ {
+		s.Results = append(s.Results, pick(ts.results))
+	}
+	return s
+}
+
+var cellForms = []string{"zero", "map1", "mapN", "bucket1", "bucketN-mixed", "bucketN"}
+
+// corpusSigs reads corpus/C18/*.sig: one signature per line, `T0;T1 -> R0;R1` with the Go
+// spelling (spaces removed) of candidate types; `#` comments.
+func corpusSigs(dir string, ts *typeSet, meta *hx.Meta) []*sig {
+	var out []*sig
+	files, _ := filepath.Glob(filepath.Join(dir, "*.sig"))
+	sort.Strings(files)
+	for _, f := range files {
+		b, err := os.ReadFile(f)
+		if err != nil {
+			continue
+		}
+		for _, l := range strings.Split(string(b), "\n") {
+			l = strings.TrimSpace(l)
+			if l == "" || l[0] == '#' {
+				continue
+			}
+			lr := strings.SplitN(l, "->", 2)
+			if len(lr) != 2 {
+				meta.Notes = append(meta.Notes, "corpus line not understood: "+l)
+				continue
+			}
+			s := &sig{}
+			okLine := true
+			parse := func(txt string) []*ga.Type {
+				var ts2 []*ga.Type
+				for _, n := range strings.Split(txt, ";") {
+					n = strings.ReplaceAll(strings.TrimSpace(n), " ", "")
+					if n == "" {
+						continue
+					}
+					t, ok := ts.byName[n]
+					if !ok {
+						okLine = false
+						meta.Notes = append(meta.Notes, "corpus type not in the candidate table: "+n)
+						continue
+					}
+					ts2 = append(ts2, t)
+				}
+				return ts2
+			}
+			s.Params, s.Results = parse(lr[0]), parse(lr[1])
+			if okLine {
+				out = append(out, s)
+				meta.Count("corpus-signatures")
+			}
+		}
+	}
+	return out
+}
+
+// ---------- histories ----------
+
+// equalVariant returns a tuple that derived Equal cannot tell from the given one: fresh
+// addresses everywhere, the sign of some zeros flipped, spare capacity added or dropped, map
+// entries inserted in another order.
+func equalVariant(r *hx.Rand, g *ga.Gen, tuple []*ga.Val) []*ga.Val {
+	out := make([]*ga.Val, len(tuple))
+	memo := map[int]*ga.Val{} // one node per pointer label (shared sub-structure stays shared and consistent)
+	var rec func(v *ga.Val) *ga.Val
+	rec = func(v *ga.Val) *ga.Val {
+		if v.K == "p" {
+			if m, ok := memo[v.Loc]; ok {
+				return m
+			}
+			memo[v.Loc] = v
+		}
+		switch v.K {
+		case "f":
+			if v.Mag == 0 && r.Bool() {
+				v.Neg = !v.Neg
+			}
+		case "c":
+			if v.Mag == 0 && r.Bool() {
+				v.Neg = !v.Neg
+			}
+			if v.IMag == 0 && r.Bool() {
+				v.INeg = !v.INeg
+			}
+		}
+		for i := range v.Elems {
+			v.Elems[i] = rec(v.Elems[i])
+		}
+		for i := range v.Spare {
+			v.Spare[i] = rec(v.Spare[i])
+		}
+		for i := range v.KVs {
+			v.KVs[i][0] = rec(v.KVs[i][0])
+			v.KVs[i][1] = rec(v.KVs[i][1])
+		}
+		switch v.K {
+		case "sl":
+			if r.Intn(3) == 0 {
+				if len(v.Spare) > 0 {
+					v.Spare = nil
+				} else if len(v.Elems) > 0 {
+					v.Spare = []*ga.Val{v.Elems[len(v.Elems)-1].Clone(g.Fresh)}
+				}
+			}
+		case "m":
+			if len(v.KVs) > 1 && r.Bool() {
+				hx.Shuffle(r, v.KVs)
+			}
+		}
+		return v
+	}
+	for i, v := range tuple {
+		out[i] = rec(v.Clone(g.Fresh))
+	}
+	return out
+}
+
+func tupleSexp(t []*ga.Val) string {
+	var b strings.Builder
+	b.WriteByte('(')
+	for i, v := range t {
+		if i > 0 {
+			b.WriteByte(' ')
+		}
+		b.WriteString(v.Sexp())
+	}
+	b.WriteByte(')')
+	return b.String()
+}
+
+func genHistory(r *hx.Rand, g *ga.Gen, pools [][]*ga.Val, maxLen int, meta *hx.Meta) string {
+	n := 1 + r.Intn(maxLen)
+	if r.Intn(20) == 0 {
+		n = 0
+	}
+	var hist [][]*ga.Val
+	for i := 0; i < n; i++ {
+		x := r.Intn(10)
+		switch {
+		case len(hist) > 0 && x < 3: // the very same argument values again (same pointers)
+			hist = append(hist, hist[r.Intn(len(hist))])
+		case len(hist) > 0 && x < 7: // Equal but not identical
+			hist = append(hist, equalVariant(r, g, hist[r.Intn(len(hist))]))
+		default:
+			t := make([]*ga.Val, len(pools))
+			for j, p := range pools {
+				t[j] = hx.Pick(r, p).Clone(g.Fresh)
+			}
+			hist = append(hist, t)
+		}
+	}
+	var b strings.Builder
+	b.WriteByte('(')
+	for i, t := range hist {
+		if i > 0 {
+			b.WriteByte(' ')
+		}
+		b.WriteString(tupleSexp(t))
+	}
+	b.WriteByte(')')
+	return b.String()
+}
+
+// ---------- the run ----------
+
+func classify(g hx.RunResult, vetOK bool) string {
+	c := ga.ClassifyGoderive(g)
+	if c == "ok" && !vetOK {
+		return "not-wellformed"
+	}
+	if c == "add-error" || c == "cannot-generate" {
+		return "generator-error"
+	}
+	return c
+}
+
 func Run(cfg hx.Config) (*hx.Meta, error) {
-	return nil, fmt.Errorf("C18: harness not built yet")
+	meta := &hx.Meta{Property: "C18", Seed: cfg.Seed, Tier: cfg.Tier}
+	r := hx.NewRand(cfg.Seed)
+	cat := ga.NewCatalogue()
+	ts := candidates(cat)
+	perCell, extra, nhist, maxLen, poolMax, batchSize := 1, 0, 50, 12, 12, 30
+	if cfg.Tier == "thorough" {
+		perCell, extra, nhist, maxLen, poolMax, batchSize = 4, 12, 800, 30, 20, 20
+	}
+
+	// parameter types whose Equal and Hash the generator accepts and that type-check (anything
+	// else is the subject of C01/C02/C04/C09, not of C18)
+	filter := func(l []*ga.Type) []*ga.Type {
+		pr := ga.Probe(cfg.Goderive, filepath.Join(cfg.Work, "probe-types"), l, []ga.Call{ga.CallEq, ga.CallHash}, true)
+		var out []*ga.Type
+		for i, t := range l {
+			meta.GoderiveRuns++
+			if pr[i].GenClass == "ok" && pr[i].VetOK {
+				out = append(out, t)
+			} else {
+				meta.Count("parameter-type-not-usable/" + pr[i].GenClass)
+				meta.Notes = append(meta.Notes, "Equal/Hash of "+t.Go(0)+" not usable ("+pr[i].GenClass+"): left out of the signatures (see C01/C02/C04/C09)")
+			}
+		}
+		return out
+	}
+	ts.noncomparable = filter(ts.noncomparable)
+	if len(ts.noncomparable) < 4 {
+		return nil, fmt.Errorf("C18: fewer than 4 usable non-comparable parameter types")
+	}
+
+	// signatures: the corpus first, then every cell (form x 0..3 results), then random ones
+	sigs := corpusSigs(cfg.Corpus, ts, meta)
+	for _, form := range cellForms {
+		for nres := 0; nres <= 3; nres++ {
+			for k := 0; k < perCell; k++ {
+				sigs = append(sigs, cellSig(r, ts, form, nres))
+			}
+		}
+	}
+	for k := 0; k < extra; k++ {
+		sigs = append(sigs, cellSig(r, ts, hx.Pick(r, cellForms), r.Intn(4)))
+	}
+	seen := map[string]bool{}
+	var uniq []*sig
+	for _, s := range sigs {
+		if !seen[s.Key()] {
+			seen[s.Key()] = true
+			uniq = append(uniq, s)
+		}
+	}
+	sigs = uniq
+
+	// probe: one package per signature — does goderive accept it, is the output well-formed
+	classes := make([]string, len(sigs))
+	outputs := make([]string, len(sigs))
+	hx.Parallel(len(sigs), 12, func(i int) {
+		p := &pkg{Dir: filepath.Join(cfg.Work, fmt.Sprintf("sig%04d", i)), Sigs: []*sig{sigs[i]}, Idx: []int{i}}
+		if err := p.write(); err != nil {
+			classes[i] = "harness-error"
+			outputs[i] = err.Error()
+			return
+		}
+		g := hx.Goderive(cfg.Goderive, p.Dir, ".")
+		if c := ga.ClassifyGoderive(g); c == "other-error" || c == "timeout" {
+			g = hx.Goderive(cfg.Goderive, p.Dir, ".") // process start failures under load: once more
+		}
+		vetOK := false
+		if g.Exit == 0 {
+			v := hx.GoVet(p.Dir, "", "./...")
+			vetOK = v.Exit == 0
+			if !vetOK {
+				v2 := hx.GoVet(p.Dir, "", "./...") // once more (load)
+				vetOK = v2.Exit == 0
+				outputs[i] = hx.Truncate(v2.Out, 1500)
+			}
+		} else {
+			outputs[i] = hx.Truncate(g.Out, 1500)
+		}
+		classes[i] = classify(g, vetOK)
+	})
+	var gen strings.Builder
+	var ok []*sig
+	var okIdx []int
+	for i, s := range sigs {
+		meta.GoderiveRuns++
+		meta.Count("signature/" + s.Form() + fmt.Sprintf("/res%d", len(s.Results)) + "/" + classes[i])
+		if classes[i] == "harness-error" {
+			return nil, fmt.Errorf("C18: %s", outputs[i])
+		}
+		fmt.Fprintf(&gen, "(gen %s %s)\n", s.Sexp(), classes[i])
+		if classes[i] == "ok" {
+			ok = append(ok, s)
+			okIdx = append(okIdx, i)
+		} else {
+			meta.Notes = append(meta.Notes, "deriveMem("+s.FuncType()+"): "+classes[i]+": "+hx.Truncate(outputs[i], 300))
+		}
+	}
+	genf := filepath.Join(cfg.Out, "c18-gen.obs")
+	if err := os.WriteFile(genf, []byte(gen.String()), 0o644); err != nil {
+		return nil, err
+	}
+	meta.ObsFiles = append(meta.ObsFiles, genf)
+
+	// batches of accepted signatures: one goderive run, one build, all histories
+	nb := (len(ok) + batchSize - 1) / batchSize
+	obsFiles := make([]string, nb)
+	errs := make([]error, nb)
+	rs := make([]*hx.Rand, nb)
+	for b := range rs {
+		rs[b] = r.Fork(uint64(b))
+	}
+	hx.Parallel(nb, 6, func(b int) {
+		lo, hi := b*batchSize, min((b+1)*batchSize, len(ok))
+		p := &pkg{Dir: filepath.Join(cfg.Work, fmt.Sprintf("batch%02d", b)), Sigs: ok[lo:hi], Idx: okIdx[lo:hi]}
+		if errs[b] = p.write(); errs[b] != nil {
+			return
+		}
+		g := hx.Goderive(cfg.Goderive, p.Dir, ".")
+		if g.Exit != 0 {
+			meta.AddDirect(hx.Direct{Class: "c18-batch-generate-failed", What: "goderive fails on a batch of signatures that it accepts one by one", Cmd: "goderive .", Output: hx.Truncate(g.Out, 3000)})
+			return
+		}
+		coll, err := p.addDriver()
+		if err != nil {
+			errs[b] = err
+			return
+		}
+		if bd := hx.GoBuild(p.Dir, filepath.Join(p.Dir, "drv"), "drv"); bd.Exit != 0 {
+			meta.AddDirect(hx.Direct{Class: "c18-batch-build-failed", What: "batch of individually well-formed packages does not build", Cmd: "go build -tags drv", Output: hx.Truncate(bd.Out, 3000)})
+			return
+		}
+		rb := rs[b]
+		g2 := ga.NewGen(rb, poolMax)
+		var cases strings.Builder
+		for i, s := range p.Sigs {
+			pools := make([][]*ga.Val, len(s.Params))
+			for j, t := range s.Params {
+				pools[j] = g2.Pool(t, map[int]*ga.Type{}, 3)
+			}
+			bucket := strings.HasPrefix(s.Form(), "bucket")
+			if bucket && !coll[p.Idx[i]] {
+				meta.CountSafe("collision-copy-not-derivable")
+				metaNote(meta, "no hash call found in the emitted deriveMem("+s.FuncType()+"): collision variant skipped")
+			}
+			for k := 0; k < nhist; k++ {
+				fkind := "canon"
+				switch x := rb.Intn(10); {
+				case x < 2:
+					fkind = "panicky"
+				case x < 4:
+					fkind = "raw"
+				}
+				h := genHistory(rb, g2, pools, maxLen, meta)
+				fmt.Fprintf(&cases, "memhist %d %s derived %s\n", p.Idx[i], fkind, h)
+				meta.CountSafe("histories/" + s.Form() + "/derived")
+				if bucket && coll[p.Idx[i]] {
+					fmt.Fprintf(&cases, "memhist %d %s coll %s\n", p.Idx[i], fkind, h)
+					meta.CountSafe("histories/" + s.Form() + "/coll")
+				}
+			}
+		}
+		cf := filepath.Join(p.Dir, "cases.txt")
+		if errs[b] = os.WriteFile(cf, []byte(cases.String()), 0o644); errs[b] != nil {
+			return
+		}
+		res := hx.Run(p.Dir, 1200e9, 8000000, nil, filepath.Join(p.Dir, "drv"), cf)
+		if res.Exit != 0 {
+			meta.AddDirect(hx.Direct{Class: "c18-driver-failed", What: "driver crashed", Cmd: "./drv cases.txt", Output: hx.Truncate(res.Out, 3000)})
+			return
+		}
+		obsFiles[b] = filepath.Join(cfg.Out, fmt.Sprintf("c18-batch%02d.obs", b))
+		errs[b] = os.WriteFile(obsFiles[b], []byte(res.Stdout), 0o644)
+		for _, l := range strings.SplitN(res.Stdout, "\n", 40)[:min(2, strings.Count(res.Stdout, "\n"))] {
+			meta.Sample(hx.Truncate(l, 400))
+		}
+	})
+	for b := range obsFiles {
+		if errs[b] != nil {
+			return nil, errs[b]
+		}
+		if obsFiles[b] != "" {
+			meta.ObsFiles = append(meta.ObsFiles, obsFiles[b])
+			meta.GoderiveRuns++
+			meta.Packages++
+		}
+	}
+	meta.Count(fmt.Sprintf("signatures=%d accepted=%d", len(sigs), len(ok)))
+	return meta, nil
+}
+
+func metaNote(meta *hx.Meta, s string) {
+	meta.CountSafe("note/" + hx.Truncate(s, 60))
 }
